@@ -179,6 +179,10 @@ func customNotAllowed(c *rux.Context) {
 				rec.Extra = map[string]any{}
 			}
 			rec.Extra["allowed"] = cp
+			// the handler works on its list afterwards (filters it in place): the list is this request's own
+			if len(ms) > 0 {
+				ms[0] = "FILTERED-BY-AN-EARLIER-REQUEST"
+			}
 		}
 	}
 	c.SetStatus(405)
